@@ -321,6 +321,50 @@ func c19(r *core.Run) {
 		r.Check("C19.A1", "C19.A1@pkg/shed."+t+"#one key, one key space", w.Func(shedPkg, "(*DB).New"+t).Pos(), len(keys) == 1 && okSpace && n >= 2,
 			"all methods of the field address the same key in the field key space", "methods of "+t+" use different keys/key spaces: "+strings.Join(ks, " | "))
 	}
+	batchStagingRules(r, "C19.B2")
+}
+
+// batchStagingRules: a driver batch is "applied entirely, in order, at commit": staging an
+// operation never looks at the live database and always records it. In the leveldb driver's
+// Batch.Put / Batch.Delete every return is preceded by the corresponding call on the
+// underlying goleveldb batch with the caller's key (and value), and the live handle b.db is
+// touched by Commit only.
+func batchStagingRules(r *core.Run, rule string) {
+	w := r.W
+	const B = "pkg/shed/leveldb.Batch"
+	for _, row := range []struct{ m, under string }{{"Put", "(*github.com/syndtr/goleveldb/leveldb.Batch).Put"}, {"Delete", "(*github.com/syndtr/goleveldb/leveldb.Batch).Delete"}} {
+		fn := w.Func("pkg/shed/leveldb", "(*Batch)."+row.m)
+		if fn == nil {
+			r.Fatal("unresolved anchor pkg/shed/leveldb.(*Batch).%s", row.m)
+			continue
+		}
+		r.Saw(core.FuncName(fn))
+		r.Eval(core.EdgeCount(fn))
+		isStage := func(in ssa.Instruction) bool {
+			c, ok := in.(*ssa.Call)
+			if !ok || !core.IsCallTo(c, row.under) {
+				return false
+			}
+			a := core.Common(c).Args
+			// receiver is b.b, key is the parameter's Data
+			if !core.IsFieldOf(a[0], B, "b") {
+				return false
+			}
+			fr, ok := core.AsField(core.Forward(a[1]))
+			return ok && fr.Name == "Data"
+		}
+		okAll := mustPassFrom([]*ssa.BasicBlock{fn.Blocks[0]}, isStage)
+		r.Check(rule, core.Key(rule, fn, "always recorded in the underlying batch"), fn.Pos(), okAll,
+			"every path through Batch."+row.m+" records the operation in the underlying write batch", "a path returns from Batch."+row.m+" without recording the operation (e.g. after looking at the live database): the batch's effect then depends on the database state while it was being built, not on the order of its operations")
+		touchesDB := false
+		core.EachInstr(fn, func(_ *ssa.BasicBlock, _ int, in ssa.Instruction) {
+			if fa, ok := in.(*ssa.FieldAddr); ok && core.IsFieldOf(fa, B, "db") {
+				touchesDB = true
+			}
+		})
+		r.Check(rule, core.Key(rule, fn, "staging does not touch the live database"), fn.Pos(), !touchesDB,
+			"Batch."+row.m+" does not use the live database handle", "Batch."+row.m+" reads the live database while the batch is being built")
+	}
 }
 
 // renderRecvLeaf names the receiver (a spilled value receiver) uniformly across methods.
